@@ -474,8 +474,18 @@ func fragOracle(r *rand.Rand, n int, tier string, infile string) (cases int, fai
 	defer o.Close("")
 	st := &fragState{}
 	defer st.reset()
-	for cases < n {
+	for cases < n || oracleOffset == 0 && !(limitDone["frag"] && limitDone["mb"]) {
 		kind := hx.Pick(r, "frag", "mb")
+		if oracleOffset == 0 {
+			// the limit case of both layers runs first, whatever the number of cases asked for (one of them is tens of
+			// thousands of operations and used to exhaust the first slice before the other got its turn)
+			for _, k := range []string{"frag", "mb"} {
+				if !limitDone[k] {
+					kind = k
+					break
+				}
+			}
+		}
 		var hist []string
 		var mtu int
 		var lastTellSize int
@@ -504,6 +514,9 @@ func fragOracle(r *rand.Rand, n int, tier string, infile string) (cases int, fai
 			}
 			run := func(op string) string {
 				cases++
+				if len(hist) < 3 {
+					hist = append(hist, op)
+				}
 				st.apply(strings.Fields(op), o)
 				return o.Last()
 			}
@@ -529,8 +542,10 @@ func fragOracle(r *rand.Rand, n int, tier string, infile string) (cases int, fai
 							wrong++
 						}
 					}
-					if got != 1 || wrong != 0 {
-						bad("C10 %s payload of exactly MTU()=%d bytes at one byte per part, every fragment handed over once and in order: %d deliveries, %d of them not the told payload", kind, lim, got, wrong)
+					if got == 0 {
+						bad("C09 %s payload of exactly MTU()=%d bytes at one byte per part is accepted, every fragment is handed over once and in order, and nothing is delivered", kind, lim)
+					} else if got != 1 || wrong != 0 {
+						bad("%s payload of exactly MTU()=%d bytes at one byte per part, every fragment handed over once and in order: %d deliveries, %d of them not the told payload", kind, lim, got, wrong)
 					}
 				}
 			}
